@@ -154,3 +154,20 @@ def scenario_long_name_text_then_object(name, text):
     ch.long_name.value = ln
     second = ch.long_name.representation_code
     return first, second, ch.long_name.value is ln
+
+
+def scenario_no_format_records_per_logical_file_in_order(name, p1, p2, p3):
+    df = DLISFile()
+    lf1 = df.add_logical_file()
+    lf2 = df.add_logical_file()
+    lf1.add_origin('O1', file_set_number=1, set_name='A')
+    lf2.add_origin('O2', file_set_number=1, set_name='B')
+    a = lf1.add_no_format(name, set_name='A')
+    b = lf1.add_no_format(name + '-B', set_name='A')
+    d1 = lf1.add_no_format_frame_data(a, p1)
+    d2 = lf1.add_no_format_frame_data(b, p2)
+    d3 = lf1.add_no_format_frame_data(a, p3)
+    records = list(df.generator([[], []]))
+    tail1 = [r for r in records if r is d1 or r is d2 or r is d3]
+    return (len(tail1), tail1[0] is d1, tail1[1] is d2, tail1[2] is d3, d1.no_format_object is a, d2.no_format_object is b, d3.no_format_object is a,
+            d1.data, len(lf2._no_format_frame_data))
